@@ -577,9 +577,10 @@ impl Xot {
 
     /// Iterator over the child nodes of this node, in reverse order.
     pub fn reverse_children(&self, node: Node) -> impl Iterator<Item = Node> + '_ {
+        // not `children().rev()`: indextree's double-ended iteration over
+        // children never advances past the last child
         node.get()
-            .children(self.arena())
-            .rev()
+            .reverse_children(self.arena())
             .take_while(|n| self.arena[*n].get().is_normal())
             .map(Node::new)
     }
